@@ -1,0 +1,32 @@
+//go:build verif
+
+package pdf417
+
+// Hooks for the verification harness in /verif (build tag `verif` only): they expose internal stages unchanged.
+
+func VerifHighlevelEncode(data string) ([]int, error) { return highlevelEncode(data) }
+
+func VerifCalcDimensions(dataWords, eccWords int) (int, int) {
+	return calcDimensions(dataWords, eccWords)
+}
+
+func VerifCompute(level byte, data []int) []int { return securitylevel(level).Compute(data) }
+
+func VerifGetPadding(dataCount, ecCount, columns int) []int {
+	return getPadding(dataCount, ecCount, columns)
+}
+
+func VerifEncodeText(text []rune, submode int) (int, []int) {
+	sm, out := encodeText(text, subMode(submode))
+	return int(sm), out
+}
+
+func VerifEncodeNumeric(digits []rune) ([]int, error) { return encodeNumeric(digits) }
+
+func VerifEncodeBinary(data []byte, startmode int) []int {
+	return encodeBinary(data, encodingMode(startmode))
+}
+
+func VerifConsecutive(data []byte) (digits, text, binary int) {
+	return determineConsecutiveDigitCount([]rune(string(data))), determineConsecutiveTextCount([]rune(string(data))), determineConsecutiveBinaryCount(data)
+}
